@@ -157,7 +157,9 @@ func lowerByte(c value) value {
 		return x
 	}
 	t := term(c)
-	return sint(fmt.Sprintf("(ite (and (<= 65 %s) (<= %s 90)) (+ %s 32) %s)", t, t, t, t))
+	r := sint(fmt.Sprintf("(ite (and (<= 65 %s) (<= %s 90)) (+ %s 32) %s)", t, t, t, t))
+	r.Lo, r.Hi, r.Bounded = 0, 255, true
+	return r
 }
 
 func decideT(t string) bool {
@@ -187,7 +189,9 @@ func firstIndex(s, sub []value) value {
 		}
 	}
 	if sym {
-		return sint(expr)
+		r := sint(expr)
+		r.Lo, r.Hi, r.Bounded = -1, int64(len(s)), true
+		return r
 	}
 	return res
 }
@@ -651,17 +655,19 @@ func init() {
 		if len(s) == 0 {
 			return []value{""}
 		}
-		var out []value
+		// regexp.(*Regexp).Split, n < 0
+		out := []value{}
 		beg, end := 0, 0
 		for _, m := range allMatches(rxOf(a[0]), s, -1) {
-			if m[1] == 0 {
-				continue
-			}
 			end = m[0]
-			out = append(out, mkStr(s[beg:end]))
+			if m[1] != 0 {
+				out = append(out, mkStr(s[beg:end]))
+			}
 			beg = m[1]
 		}
-		out = append(out, mkStr(s[beg:]))
+		if end != len(s) {
+			out = append(out, mkStr(s[beg:]))
+		}
 		return out
 	})
 	inSet := func(c value, set string) string {
